@@ -32,6 +32,7 @@ SIM_CHECKS = {
         'runs': {'quick': 2000000, 'thorough': 150000000},
         'batch': {'quick': 10000, 'thorough': 250000},
         'cells': 'c13',
+        'c13_sweep': True,
         'rule': ('Each evaluation is one seeded run of the real SystemClockLoop (no reference clock) under a simulated '
                  'millis() counter: a generated schedule of SET / GET / LOOP / ADV / SETUP / REBOOT ops (5-400 ops), '
                  'checked op by op against the A.1 reference clock (T + floor((m-m0)/1000), interval anchors). '
@@ -176,6 +177,42 @@ def determinism_slice(binary, profile, verif_seed, n=64):
     return {'seeds_rerun': n, 'mismatches': mism}
 
 
+def c13_sweep(binary):
+    """Thorough-tier supplement for C13: every start phase m0 mod 65536 x every single poll gap
+    1..64536 ms x two counter bases (without / with a 32-bit wrap inside the gap). This is plain
+    enumeration of one bounded schedule family, reported separately from the seeded search."""
+    import subprocess
+    from concurrent.futures import ThreadPoolExecutor
+    t0 = time.time()
+    chunks = [(p, 256) for p in range(0, 65536, 256)]
+
+    def job(c):
+        p = subprocess.run([binary, 'sweep13', str(c[0]), str(c[1])], stdout=subprocess.PIPE, stderr=subprocess.PIPE,
+                           text=True, timeout=3600)
+        return p.stdout
+
+    pairs = 0
+    viol = None
+    with ThreadPoolExecutor(max_workers=min(16, os.cpu_count() or 4)) as ex:
+        for out in ex.map(job, chunks):
+            import re as _re
+            m = _re.search(r'SWEEP pairs=(\d+)', out)
+            if m:
+                pairs += int(m.group(1))
+            v = _re.search(r'SWEEPVIOL boot=(\d+) gap=(\d+) got=(-?\d+) want=(-?\d+)', out)
+            if v and viol is None:
+                boot, gap, got, want = (int(x) for x in v.groups())
+                trace = ('PROFILE clock-keep\nCFG CLOCK ref=none bak=0 boot=%d testable=1\nSET 600000000\nADV %d\nGET\n'
+                         % (boot, gap))
+                o = K.run_trace(binary, trace)
+                if not (o.failed and o.vclass == 'c13-exact'):
+                    raise K.HarnessError('sweep disagreement does not reproduce as a trace: boot=%d gap=%d' % (boot, gap))
+                viol = {'trace': trace, 'msg': 'set at counter %d, one poll %d ms later: getNow()=%d, expected %d'
+                        % (boot, gap, got, want)}
+    return ({'pairs_checked': pairs, 'phases': 65536, 'gaps': '1..64536', 'counter_bases': ['0x00000000', '0xFFFF0000'],
+             'exhaustive': viol is None and pairs == 2 * 65536 * 64536, 'wall_s': round(time.time() - t0, 1)}, viol)
+
+
 def triage(prop, profile, variant, binary, tier, verif_seed, v, needs_history_rule=False, crash_note_ops=()):
     """Confirm, minimise, re-confirm in a fresh process, match against known findings.
     Returns ('violation', replay_path) | ('known', entry) | ('note', text)."""
@@ -311,6 +348,17 @@ def run_sim_check(prop, tier, verif_seed, spec=None, runs_override=None):
             if triaged >= 25:
                 K.log('[%s] too many known findings / notes to keep triaging; stopping the search here' % prop)
                 break
+    sweep = None
+    if spec.get('c13_sweep') and tier == 'thorough' and exit_code == 0 and not runs_override:
+        sweep, sv = c13_sweep(B.build('plain'))
+        if sv:
+            v = {'run': -1, 'seed': 0, 'vclass': 'c13-exact', 'msg': sv['msg'], 'op': 2}
+            path = K.write_replay(prop, 'clock-keep', tier, verif_seed, v, sv['trace'], sv['trace'], 'plain', 0,
+                                  {'found_by': 'exhaustive phase x gap sweep'})
+            print('VIOLATION property=%s replay=%s' % (prop, path))
+            K.log('[%s] sweep: %s' % (prop, sv['msg']))
+            violations += 1
+            exit_code = 1
     py_half = None
     if spec.get('py_stage') and exit_code == 0:
         from pysim import check as P
@@ -378,6 +426,8 @@ def run_sim_check(prop, tier, verif_seed, spec=None, runs_override=None):
         cov.update(spec['extra_coverage'](total))
     if py_half:
         cov['python_half'] = py_half
+    if sweep:
+        cov['exhaustive_phase_gap_sweep'] = sweep
     doc = {
         'property_id': prop, 'tier': tier, 'seed': verif_seed, 'level': 'exploration',
         'coverage': cov, 'assumptions': spec['assumptions'], 'wall_s': round(wall, 2),
